@@ -31,7 +31,7 @@ MIN_REACH = {
     "pipelines_reaped": {"quick": 120, "thorough": 2000},
     "crops_also_reaped_as_a_table": {"quick": 8, "thorough": 120},
     "fresh_process_steps": {"quick": 15, "thorough": 300},
-    "batches_grown": {"quick": 600, "thorough": 10000},
+    "batches_grown": {"quick": 450, "thorough": 10000},
     "positions_compared": {"quick": 700, "thorough": 25000},
     "regrown_batches": {"quick": 20, "thorough": 300},
 }
